@@ -38,21 +38,27 @@ def queries(ctx):
                     checks=["bounds", "pointer"], object_bits=12, units=[U, "parsec/mca/termdet/local/termdet_local_module.c", "parsec/parsec.c"],
                     info={"symbolic": ["number k of members already completed (any valid state of the compound)"], "enumerated": ["number of members N"],
                           "functions": ["parsec_compose", "parsec_compound_taskpool_startup", "parsec_composed_taskpool_cb", "parsec_termdet_local_taskpool_addto_runtime_actions/_set_runtime_actions/_termination_detected"],
-                          "stubs": ["parsec_context_add_taskpool (recording stub; the real one is used by the compose_n* queries)", "parsec_class_initialize (clsstub.c)", "object release (counting stub)", "asprintf"],
+                          "stubs": ["parsec_context_add_taskpool (recording stub; the real one is used by the submit_n* queries)", "parsec_class_initialize (clsstub.c)", "object release (counting stub)", "asprintf"],
                           "bounds": {"N": nn}}, tiers=tiers, timeout=600))
-    for nmax, tiers in ((2, both), (3, both), (17, both), (16, ("thorough",)), (20, ("thorough",))):
-        qs.append(Q("compose_n%d" % nmax, ["h.c", "clsstub.c", "repo:parsec/class/parsec_list.c"], defs=["N=%d" % nmax, "SYMEMPTY=%d" % (1 if nmax == 2 else 0)], unwind=max(nmax + 2, 8),
-                    unwindset=["%s:%d" % (f, 5 if nmax == 2 else 3) for f in ("parsec_termdet_local_termination_detected", "parsec_composed_taskpool_cb", "parsec_context_add_taskpool",
+    for nmax, tiers in ((2, both), (3, both), (17, ("thorough",))):
+        qs.append(Q("submit_n%d" % nmax, ["h.c", "clsstub.c", "repo:parsec/class/parsec_list.c"], defs=["N=%d" % nmax, "SYMEMPTY=%d" % (1 if nmax <= 3 else 0)], unwind=max(nmax + 2, 8),
+                    unwindset=["%s:%d" % (f, nmax + 2 if nmax <= 3 else 3) for f in ("parsec_termdet_local_termination_detected", "parsec_composed_taskpool_cb", "parsec_context_add_taskpool",
                                "parsec_taskpool_termination_detected", "parsec_termdet_local_taskpool_ready", "parsec_compound_taskpool_startup")], gen=gen_tpclass,
                     checks=["bounds", "pointer"], object_bits=12, units=[U, "parsec/scheduling.c", "parsec/mca/termdet/local/termdet_local_module.c", "parsec/parsec.c"],
                     info=dict(info, bounds={"N": nmax}), tiers=tiers, timeout=600, kf="C15-compound-completes-at-add"))
     return qs
 def mutants(ctx):
     return [
-      Mutant("enable_two_ahead", U, "                                    compound->taskpool_array[completed_taskpools+1]);\n    } else {", "                                    compound->taskpool_array[completed_taskpools+2]);\n    } else {", queries=["chain_n3", "compose_n3"]),
-      Mutant("startup_enables_second", U, "parsec_context_add_taskpool(compound->ctx, compound->taskpool_array[0]);", "parsec_context_add_taskpool(compound->ctx, compound->taskpool_array[1]);", queries=["chain_n3", "compose_n3"]),
+      Mutant("enable_two_ahead", U, "                                    compound->taskpool_array[completed_taskpools+1]);\n    } else {", "                                    compound->taskpool_array[completed_taskpools+2]);\n    } else {", queries=["chain_n3", "submit_n3"]),
+      Mutant("startup_enables_second", U, "parsec_context_add_taskpool(compound->ctx, compound->taskpool_array[0]);", "parsec_context_add_taskpool(compound->ctx, compound->taskpool_array[1]);", queries=["chain_n3", "submit_n3"]),
       Mutant("realloc_off_by_one", U, "((compound->nb_taskpools + 16) * sizeof(parsec_taskpool_t*))", "((compound->nb_taskpools + 1) * sizeof(parsec_taskpool_t*))", queries=["chain_n17", "chain_n16"]),
-      Mutant("cb_not_installed_on_last", U, "for( int i = 0; i < compound->nb_taskpools; i++ ) {", "for( int i = 0; i < compound->nb_taskpools - 1; i++ ) {", queries=["chain_n3", "compose_n3"]),
+      Mutant("cb_not_installed_on_last", U, "for( int i = 0; i < compound->nb_taskpools; i++ ) {", "for( int i = 0; i < compound->nb_taskpools - 1; i++ ) {", queries=["chain_n3", "submit_n3"]),
       Mutant("no_null_terminator_slot", U, "if( 0 == (compound->nb_taskpools % 16) ) {", "if( 0 == (compound->nb_taskpools % 17) ) {", queries=["chain_n17", "chain_n16"]),
     ]
-CLAIMED = False
+CLAIMED = True
+MANIFEST = {
+ "engine": "cbmc-src",
+ "text": "Bounded model checking of the real compound.c with the real local termination detector: for N = 2,3,16,17 (thorough 20) composed taskpools, compose + start-up are executed symbolically and ONE completion step is decided from every valid state of the compound (number k of completed members symbolic): exactly the next member is enqueued, or after the last one nothing is enqueued and the compound's detector reports termination exactly once; array accesses in bounds across the realloc at 16.  The submission itself runs the real parsec_context_add_taskpool (scheduling.c) on a compound of 2/3 members with symbolic empty members.  Known finding C15-compound-completes-at-add: the compound is reported complete inside add_taskpool (before its first member ran).",
+ "note": "N enumerated, completion order fixed by construction (a compound is not thread safe); a member is represented by the single pending action its DSL holds; completions through the real add_taskpool beyond the submission are not encoded (no verdict); class system initializer, PINS, debug output, MCA repository, asprintf are stubs.",
+ "technique": "CBMC bounded symbolic execution of the real C units (inductive step from a symbolic valid state) + SAT (cadical)",
+}
